@@ -11,7 +11,7 @@ from itertools import combinations, product
 
 from symex.api import Case
 from symex import refs
-from symex.env import scalar
+from symex.env import scalar, b_and
 
 PROPERTY = "C11"
 
@@ -247,10 +247,9 @@ def expect_case(n, d, chis, Ds):
         op = MPO(O, num_gpus_to_use=0)
         got = op.expect(a)
         v = refs.contract_mps(T, A0)
-        Oref = clones(O0)
-        if env.mutant("perturbed_op"):  # one entry of one operator factor: a small residual for the solver
-            Oref[0][0, 0, d - 1, 0] = Oref[0][0, 0, d - 1, 0] + 1.0
-        H = refs.contract_mpo(T, Oref)
+        H = refs.contract_mpo(T, O0)
+        if env.mutant("perturbed_op"):  # one matrix element of the dense operator: the residual |v_0|^2 is small for the solver
+            H[0, 0] = H[0, 0] + 1.0
         env.check_eq(got, T.vdot(v, H @ v), f"MPO.expect(psi) = <psi|O|psi> (n={n}, d={d})")
         unchanged(env, a.factors, A0, "expect state")
         unchanged(env, op.factors, O0, "expect operator")
@@ -527,7 +526,10 @@ def state_amplitudes_case(eig, n, n_amps):
         dense = refs.contract_mps(T, got.factors)
         renorm = abs(p * p - 1.0) > 1e-12
         if renorm:
-            env.check_eq(dense * T.sqrt(T.tensor(p, dtype=T.float64)), target, f"normalised state * |amp| = sum amp_s |s> ({''.join(eig)}, n={n})")
+            # 1/|amp| is formed as in the code (same atoms), its meaning is checked once instead of per entry
+            inv = 1 / T.sqrt(T.tensor(p, dtype=T.float64))
+            env.check(b_and(env.eqv(scalar(inv * inv) * p, 1.0), scalar(inv) > 0.0), "1/|amp| is the positive root of 1/sum|amp_s|^2")
+            env.check_eq(dense, target * inv, f"normalised state = sum amp_s |s> / |amp| ({''.join(eig)}, n={n})")
         else:
             env.check_eq(dense, target, f"dense(from_state_amplitudes) = sum amp_s |s> ({''.join(eig)}, n={n})")
         env.check(tuple(got.eigenstates) == tuple(eig), "eigenstates recorded")
@@ -701,6 +703,9 @@ META = {
         "declared centre for bond dimension > 1",
         "MPS.norm() equals the dense norm only for a canonical MPS: checked for chi = 1; for larger bonds only "
         "'norm() = Frobenius norm of the declared centre factor' is decided",
+        "get_correlation_matrix for more than 2 sites (it re-centres once per site; the nested QR atoms are beyond z3), "
+        "Hermitian operators for d = 3; the diagonal is compared with <O_i> (convention of the repository's test-suite; the "
+        "docstring's <O_i O_i> coincides for the default projector n)",
         "MPS._from_state_amplitudes' accumulation through the truncating MPS.__add__ (replaced by the direct sum built from the real add_factors)",
         "floating-point rounding and the truncation precision (the program is read over exact reals)",
         "nested user-defined operator symbols in _from_operator_repr: the public signature offers no way to supply them",
@@ -935,7 +940,7 @@ def cases(tier):
     if quick:
         grid = [(BRG, 2, 2), (BX, 2, 1)]
     else:
-        grid = [(BRG, 2, 2), (BRG, 3, 2), (B01, 2, 3), (BGR, 2, 2), (BX, 2, 2), (BX, 3, 1), (BRG, 3, 3)]
+        grid = [(BRG, 2, 2), (BRG, 3, 2), (B01, 2, 3), (BGR, 2, 2), (BX, 2, 2), (BX, 3, 1)]
     for eig, n, k in grid:
         add(
             "state_amplitudes",
@@ -950,7 +955,8 @@ def cases(tier):
         )
     # product states with the exact column QR
     kinds = ("expect_batch", "correlation", "correlation_hermitian", "norm", "apply")
-    grid = [(2, 2, w) for w in kinds] if quick else [(n, d, w) for w in kinds for (n, d) in ((2, 2), (3, 2), (2, 3))]
+    # (get_correlation_matrix re-centres once per site: for n = 3 the nested QR atoms exceed what z3 decides in a minute)
+    grid = [(2, 2, w) for w in kinds] if quick else [(n, d, w) for w in kinds for (n, d) in ((2, 2), (3, 2), (2, 3)) if not (w.startswith("correlation") and n > 2) and not (w == "correlation_hermitian" and d > 2)]
     for n, d, w in grid:
         add(
             "product_state" if w != "correlation_hermitian" else "product_state_correlation_hermitian",
@@ -966,7 +972,7 @@ def cases(tier):
                 "operator": {"correlation": "default n or complex symmetric", "correlation_hermitian": "Hermitian"}.get(w, "arbitrary complex"),
             },
             {"expect_batch": ["mirror_sites"], "correlation": ["no_real_part"], "correlation_hermitian": [], "norm": ["double"], "apply": ["transpose_op"]}[w],
-            timeout_ms=60000 if w != "correlation_hermitian" else 6000,
+            timeout_ms=60000,
             deadline_s=800.0,
             weight=50 * n * d,
         )
